@@ -208,7 +208,7 @@ fn cyclic_import_states() -> Vec<(State, Vec<(&'static str, String)>)> {
 /// Two referrers of different kinds to ONE name in one file: `RefUser` holds ref="a:Thing" (the
 /// global element), `BaseUser` extends a:Thing (the type); every declaration order of the four
 /// components, the element being of the type of the same name or of an anonymous type.
-fn two_referrer_states() -> Vec<(State, Vec<(&'static str, String)>)> {
+pub fn two_referrer_states() -> Vec<(State, Vec<(&'static str, String)>)> {
     let mut out = vec![];
     let perms: Vec<Vec<usize>> = {
         fn rec(cur: &mut Vec<usize>, used: &mut [bool; 4], out: &mut Vec<Vec<usize>>) {
@@ -247,6 +247,90 @@ fn two_referrer_states() -> Vec<(State, Vec<(&'static str, String)>)> {
             let label = format!("two referrers (ref= and base=) to Thing, declared in the order {}, element Thing {}", order.join(" "), if idiom { "of type Thing" } else { "of an anonymous type" });
             let ctx = vec![("reference.kind", "ref-and-base".to_string()), ("reference.target", "own-namespace".to_string()), ("reference.order", order.join(",")), ("element_is_instance_of_same_named_type", idiom.to_string())];
             out.push((State { label, depth: 2, set: s }, ctx));
+        }
+    }
+    out
+}
+
+/// A type that refers to the global element of its own name (the recursive form of the
+/// `element name="Thing" type="a:Thing"` idiom: a tree node holding child nodes through `ref=`), and a
+/// type derived from it; every declaration order of the three components. Reading `BaseUser` first
+/// looks the TYPE Thing up ahead, which looks the ELEMENT Thing up ahead, which names the type again:
+/// two different components of one name are on the resolution stack at once.
+pub fn recursive_same_name_states() -> Vec<(State, Vec<(&'static str, String)>)> {
+    let mut out = vec![];
+    for perm in [[0usize, 1, 2], [0, 2, 1], [1, 0, 2], [1, 2, 0], [2, 0, 1], [2, 1, 0]] {
+        let mut s = s0();
+        s.files[0].comps.clear();
+        let type_a = complex("Thing", vec![el("MarkTypeA", TypeRef::b("string")), Particle::Ref(ElemRef { target: QName::new(NS_A, "Thing"), min: 0, max: Max::Unbounded, xmlns: vec![] })]);
+        let elem_a = typed_element("Thing", TypeRef::n(NS_A, "Thing"));
+        let base_user = Comp::Complex(ComplexType { name: "BaseUser".into(), base: Some(QName::new(NS_A, "Thing")), seq: Some(Seq::of(vec![el("BaseUserMark", TypeRef::b("string"))])), ..Default::default() });
+        let comps = [base_user, elem_a, type_a];
+        let names = ["base-user", "element", "type"];
+        for i in perm {
+            s.files[0].comps.push(comps[i].clone());
+        }
+        let order: Vec<&str> = perm.iter().map(|i| names[*i]).collect();
+        let label = format!("type Thing holds ref= to the element Thing of type Thing, BaseUser extends Thing, declared in the order {}", order.join(" "));
+        let ctx = vec![("reference.kind", "recursive-ref-and-base".to_string()), ("reference.target", "own-namespace".to_string()), ("reference.order", order.join(",")), ("element_is_instance_of_same_named_type", "true".to_string())];
+        out.push((State { label, depth: 2, set: s }, ctx));
+    }
+    out
+}
+
+/// A shared file reached twice, once directly and once at the end of a three-deep import chain:
+/// a.xsd imports d.xsd and b.xsd (both orders), b.xsd imports c.xsd, c.xsd imports d.xsd (optionally
+/// b.xsd imports d.xsd too). c.xsd refers to d's components by `ref=` and by `base=` and declares
+/// components of the same local names itself. When c.xsd is read, d.xsd may have been read two
+/// import levels up: what is known there has to reach the lookup in c.xsd, whatever the import order.
+pub fn deep_shared_import_states() -> Vec<(State, Vec<(&'static str, String)>)> {
+    const NS_C: &str = "http://zv.example/gamma";
+    const NS_D: &str = "http://zv.example/delta";
+    let mut out = vec![];
+    for shared_first in [true, false] {
+        for b_imports_d in [false, true] {
+            let d = XsdFile {
+                name: "d.xsd".into(),
+                tns: NS_D.into(),
+                prefixes: vec![("d".into(), NS_D.into())],
+                default_ns: None,
+                imports: vec![],
+                comps: vec![typed_element("Thing", TypeRef::b("int")), complex("Base", vec![el("MarkBaseD", TypeRef::b("long"))])],
+            };
+            let c = XsdFile {
+                name: "c.xsd".into(),
+                tns: NS_C.into(),
+                prefixes: vec![("c".into(), NS_C.into()), ("d".into(), NS_D.into())],
+                default_ns: None,
+                imports: vec![Import { ns: NS_D.into(), loc: Some("d.xsd".into()) }],
+                comps: vec![
+                    typed_element("Thing", TypeRef::b("string")),
+                    complex("Base", vec![el("MarkBaseC", TypeRef::b("string"))]),
+                    complex("User", vec![Particle::Ref(ElemRef { target: QName::new(NS_D, "Thing"), min: 1, max: Max::N(1), xmlns: vec![] }), el("UserMark", TypeRef::b("string"))]),
+                    Comp::Complex(ComplexType { name: "BaseUser".into(), base: Some(QName::new(NS_D, "Base")), seq: Some(Seq::of(vec![el("BaseUserMark", TypeRef::b("string"))])), ..Default::default() }),
+                ],
+            };
+            let mut b_imports = vec![Import { ns: NS_C.into(), loc: Some("c.xsd".into()) }];
+            let mut b_prefixes = vec![("b".into(), NS_B.into()), ("c".into(), NS_C.into())];
+            if b_imports_d {
+                b_imports.push(Import { ns: NS_D.into(), loc: Some("d.xsd".into()) });
+                b_prefixes.push(("d".into(), NS_D.into()));
+            }
+            let b = XsdFile { name: "b.xsd".into(), tns: NS_B.into(), prefixes: b_prefixes, default_ns: None, imports: b_imports, comps: vec![complex("Mid", vec![el("Leaf", TypeRef::n(NS_C, "User")), el("Derived", TypeRef::n(NS_C, "BaseUser"))])] };
+            let imp_d = Import { ns: NS_D.into(), loc: Some("d.xsd".into()) };
+            let imp_b = Import { ns: NS_B.into(), loc: Some("b.xsd".into()) };
+            let a = XsdFile {
+                name: "a.xsd".into(),
+                tns: NS_A.into(),
+                prefixes: vec![("a".into(), NS_A.into()), ("b".into(), NS_B.into()), ("d".into(), NS_D.into())],
+                default_ns: None,
+                imports: if shared_first { vec![imp_d, imp_b] } else { vec![imp_b, imp_d] },
+                comps: vec![complex("Holder", vec![el("Mid", TypeRef::n(NS_B, "Mid")), Particle::Ref(ElemRef { target: QName::new(NS_D, "Thing"), min: 0, max: Max::N(1), xmlns: vec![] })])],
+            };
+            let set = SchemaSet { files: vec![a, b, c, d], wsdl: None, start: "a.xsd".into(), xs_is_default_namespace: false };
+            let label = format!("shared file d.xsd imported by a.xsd {} b.xsd and again by c.xsd at the end of the chain a -> b -> c{}; c.xsd refers to d's Thing (ref=) and Base (base=) and has its own Thing and Base", if shared_first { "before" } else { "after" }, if b_imports_d { ", b.xsd importing d.xsd too" } else { "" });
+            let ctx = vec![("reference.kind", "ref-and-base".to_string()), ("reference.target", "shared-file-two-levels-up".to_string()), ("layout.import_order", if shared_first { "shared-first".to_string() } else { "chain-first".to_string() })];
+            out.push((State { label, depth: 3, set }, ctx));
         }
     }
     out
@@ -295,6 +379,8 @@ pub fn check(tier: &str) -> i32 {
     let mut agg = Agg::new();
     let mut xs = xsd_states();
     xs.extend(two_referrer_states());
+    xs.extend(recursive_same_name_states());
+    xs.extend(deep_shared_import_states());
     xs.extend(cyclic_import_states());
     let states: Vec<State> = xs.iter().map(|(s, _)| State { label: s.label.clone(), depth: s.depth, set: s.set.clone() }).collect();
     let ran = run_states(&states);
